@@ -458,7 +458,11 @@ impl TransportParameters {
                     if params.preferred_address.is_some() {
                         return Err(Error::Malformed);
                     }
-                    params.preferred_address = Some(PreferredAddress::read(&mut r.take(len))?);
+                    let mut value = r.take(len);
+                    params.preferred_address = Some(PreferredAddress::read(&mut value)?);
+                    if value.has_remaining() {
+                        return Err(Error::Malformed);
+                    }
                 }
                 TransportParameterId::InitialSourceConnectionId => {
                     decode_cid(len, &mut params.initial_src_cid, r)?
@@ -467,23 +471,25 @@ impl TransportParameters {
                     decode_cid(len, &mut params.retry_src_cid, r)?
                 }
                 TransportParameterId::MaxDatagramFrameSize => {
-                    if len > 8 || params.max_datagram_frame_size.is_some() {
+                    if params.max_datagram_frame_size.is_some() {
                         return Err(Error::Malformed);
                     }
-                    params.max_datagram_frame_size = Some(r.get()?);
+                    params.max_datagram_frame_size = Some(decode_varint_value(len, r)?);
                 }
                 TransportParameterId::GreaseQuicBit => match len {
                     0 => params.grease_quic_bit = true,
                     _ => return Err(Error::Malformed),
                 },
-                TransportParameterId::MinAckDelayDraft07 => params.min_ack_delay = Some(r.get()?),
+                TransportParameterId::MinAckDelayDraft07 => {
+                    params.min_ack_delay = Some(decode_varint_value(len, r)?)
+                }
                 _ => {
                     macro_rules! parse {
                         {$($(#[$doc:meta])* $name:ident ($id:ident) = $default:expr,)*} => {
                             match id {
                                 $(TransportParameterId::$id => {
-                                    let value = r.get::<VarInt>()?;
-                                    if len != value.size() || got.$name { return Err(Error::Malformed); }
+                                    let value = decode_varint_value(len, r)?;
+                                    if got.$name { return Err(Error::Malformed); }
                                     params.$name = value.into();
                                     got.$name = true;
                                 })*
@@ -708,6 +714,19 @@ impl TryFrom<u64> for TransportParameterId {
         };
         Ok(param)
     }
+}
+
+/// Decode a parameter value that consists of exactly one variable-length integer
+///
+/// The integer may use any of its legal encoding sizes, but must fill the declared `len` bytes.
+/// Callers need to assure that `r.remaining() >= len`.
+fn decode_varint_value(len: usize, r: &mut impl Buf) -> Result<VarInt, Error> {
+    let mut value = r.take(len);
+    let x = value.get::<VarInt>()?;
+    if value.has_remaining() {
+        return Err(Error::Malformed);
+    }
+    Ok(x)
 }
 
 fn decode_cid(len: usize, value: &mut Option<ConnectionId>, r: &mut impl Buf) -> Result<(), Error> {
